@@ -23,8 +23,14 @@ use std::io::Error;
 use std::mem::MaybeUninit;
 use std::os::unix::io::AsRawFd;
 use std::ptr;
+#[cfg(not(sighook_verif))]
 use std::sync::atomic::{AtomicBool, Ordering};
+#[cfg(not(sighook_verif))]
 use std::sync::{Arc, Mutex};
+#[cfg(sighook_verif)]
+use signal_hook_registry::verif::atomic::{AtomicBool, Ordering};
+#[cfg(sighook_verif)]
+use signal_hook_registry::verif::sync::{Arc, Mutex};
 
 use libc::{self, c_int};
 
@@ -313,6 +319,8 @@ where
             let nowait_flag = libc::MSG_NONBLOCK;
             #[cfg(not(target_os = "aix"))]
             let nowait_flag = libc::MSG_DONTWAIT;
+            #[cfg(sighook_verif)]
+            signal_hook_registry::verif::sched_point("flush_recv", self.read.as_raw_fd() as u64);
             while libc::recv(
                 self.read.as_raw_fd(),
                 buff.as_mut_ptr() as *mut libc::c_void,
